@@ -126,3 +126,44 @@ func VH_C08_cascade(kind, k0, k1, k2 int) {
 	}
 	vreach("end")
 }
+
+// VH_C08_refused_overwrite (C08 and C02): item d names the item a in deleteWith. A write to
+// d's id is refused (a rule body the rule index cannot take). The refusal changes nothing:
+// d is still found by a search on one of its values, and it still goes when a is removed
+// (memory and storage).
+func VH_C08_refused_overwrite(kind, odd, isRule int) {
+	env := vhNewEnv(kind)
+	_, err := env.loc.AddFact(env.ctx, "a", Map{"n": "1"})
+	vassume(err == nil)
+	if isRule == 1 {
+		r := vhRule(map[string]interface{}{"tag": "?x"}, "act")
+		r[KW_DeleteWith] = []interface{}{"a"}
+		_, err = env.loc.AddRule(env.ctx, "d", r)
+	} else {
+		_, err = env.loc.AddFact(env.ctx, "d", Map{"tag": "t", KW_DeleteWith: []interface{}{"a"}})
+	}
+	vassume(err == nil)
+	var body map[string]interface{}
+	switch odd {
+	case 0:
+		body = map[string]interface{}{"foo": float64(1)}
+	case 1:
+		body = map[string]interface{}{"when": float64(5), "action": vhAction("z")}
+	case 2:
+		body = map[string]interface{}{"when": map[string]interface{}{"pattern": map[string]interface{}{"a": []interface{}{map[string]interface{}{"k": "1"}, map[string]interface{}{"k": "2"}}}}, "action": vhAction("z")}
+	}
+	_, aerr := env.loc.AddFact(env.ctx, "d", Map{"rule": body})
+	vassume(aerr != nil) // the states differ in what they refuse; only a refusal is of interest
+	// still found through the term index / scan
+	srs, serr := env.state.Search(env.ctx, Map{KW_DeleteWith: []interface{}{"a"}})
+	vassert(serr == nil && srs != nil && len(srs.Found) == 1, "refused-overwrite-leaves-the-item-searchable")
+	// and still a dependent of a
+	_, rerr := env.loc.RemFact(env.ctx, "a")
+	vassert(rerr == nil, "rem-succeeds")
+	_, gerr := env.state.Get(env.ctx, "d")
+	vassert(gerr != nil, "deleted-iff-transitive-dependent")
+	re := vhOpenEnv(kind, env.ctx, env.store, env.name)
+	_, gerr = re.state.Get(re.ctx, "d")
+	vassert(gerr != nil, "storage-agrees-after-reload")
+	vreach("end")
+}
